@@ -137,6 +137,10 @@ def bfs(initial_hists, expand, run_many, key_of, max_depth, stats, on_result=Non
             edges.append((h[:-1], h, k, new))
         stats.depth_hist[depth] = len(nxt)
         frontier = nxt
+        if os.environ.get("VERIF_VERBOSE"):
+            import sys
+            print(f"  bfs depth {depth}: {len(cand)} transitions, {len(nxt)} new states, {len(seen)} total, "
+                  f"{stats.wall()}s", file=sys.stderr)
         if max_states is not None and len(seen) >= max_states:
             stats.caps.append(f"max_states={max_states} reached at depth {depth}")
             break
